@@ -575,3 +575,46 @@ def setup(ctx):
     tail = "\n".join(l for l in r.stdout.splitlines() if l.startswith("test result") or "FAILED" in l or "panicked" in l)
     ctx["log"](f"reference-model self tests: {tail or r.stdout[-400:]}")
     return 0 if r.returncode == 0 else 3
+
+# ---- additions of the second and third seeding rounds (see DESIGN.md 0.6): appended to the texts above
+_TRIAGE = ("; a shard that dies by a signal or spends 1200 CPU seconds inside one case is not just reported: the case is replayed alone, twice, with a CPU budget "
+           "(driver/triage.py), and a reproduced death / non-termination is a violation ({clause}), anything else inconclusive")
+for _p in PROPS:
+    PROPS[_p]["rule"] += _TRIAGE.format(clause="C03.death" if _p == "C03" else f"{_p}.no_result")
+PROPS["C02"]["rule"] += ("; conversions of boundary dates: PlainDateTime::from(PlainDate), PlainDate::to_zoned_date_time with a time of day and at the start of the day in UTC and offset zones "
+                         "(exact expectation); instants within a second of either limit, with sub-second digits, through named zones whose offset is constant there "
+                         "(PlainDateTime::to_zoned_date_time, ZonedDateTime::from_str through the bundled zone data, exact expectation; a wall-clock date beyond +-1e8 days is not judged); "
+                         "time parts worth k * 2^31 days added to ordinary receivers (a wrapped 32-bit day count lands back near the receiver)")
+PROPS["C03"]["rule"] += ("; storm scenario day-jump: every table zone and every real zone (through the library's own provider) with a jump of 20 h or more, receivers within 3 days of it, "
+                         "day-sized durations: total / round / compare relative to the receiver, until / since, add / subtract, hours_in_day, start_of_day, with_plain_time; "
+                         "relativeTo and second operands of the other zoned scenarios are drawn near transitions half of the time")
+PROPS["C05"]["rule"] += "; time parts worth k * 2^31 days (hours or seconds field), the carry of which does not fit in 32 bits"
+PROPS["C07"]["rule"] += ("; PlainDate and PlainYearMonth until / since with smallest unit week / month / year, increments 1..25, all modes, month-end and leap-day receivers, against the "
+                         "exact-rational add-and-remeasure model (refmodel::relround); Duration::as_temporal_string with Digit(0..9) / smallestUnit x 9 modes on positive and negative, "
+                         "balanced and unbalanced time-only durations, decoded from the printed text")
+PROPS["C11"]["rule"] += ("; ZonedDateTime in named zones with rules through the bundled zone data (quick: 16 zones incl. sub-minute and half-hour offsets, thorough: every zone), instants at "
+                         "transitions +- {1 ns, half a step, a step, 30 s, ...} x {auto, 0/3/6 digits, smallestUnit second / minute} x 9 modes: the text must be the canonical text of the "
+                         "ROUNDED instant (offset taken at the rounded instant), equal to the rounded instant's own text, and parse back to what the text denotes "
+                         "(counter named/rounds_across_a_transition must be > 0)")
+PROPS["C13"]["rule"] += ("; every real zone is driven a second time through the library's own file-system provider reading the same TZif files (instants up to the tables' horizon 2120, "
+                         "signatures tagged tzdb-provider), and the probes include sub-second wall times next to transitions")
+PROPS["C14"]["rule"] += "; every real zone is driven a second time through the library's own file-system provider (receivers and results up to the tables' horizon 2120, signatures tagged tzdb-provider)"
+PROPS["C15"]["rule"] += ("; junk names (incl. readable non-IANA files of the zoneinfo directory: posix/..., right/..., posixrules, localtime) are checked again after an offset and a local-time query "
+                         "for the same name on the same provider (C15.history); zones with an offset of 14 h or more or a jump of most of a day are visited on every quick run")
+PROPS["C18"]["rule"] += ("; rounded since = minus the difference rounded with the mirrored mode; Calendar::month_day_from_partial for all 12 x 31 days x five years (leap, common, 1900, -4, 1972) "
+                         "x both overflow modes (a record without a year is not judged)")
+PROPS["C19"]["rule"] += ("; ZonedDateTime receivers also within 1.5 days of the transitions of every zone of the database, and on every day whose midnight is skipped by a gap that starts before it "
+                         "(directed list from the exported tables; the oracle stays the core method)")
+for _p, _t in {
+    "C02": " Conversions of boundary dates into date-times and zones, sub-second instants at the limits through named zones and time parts whose day count needs more than 32 bits are part of the workload.",
+    "C03": " The storm includes zones that skip or repeat a whole day (table and real ones) with day-sized durations and differences. A shard that dies or stops making progress is triaged: a death or non-termination reproduced twice in isolation is a violation with the replay command.",
+    "C05": " Time parts whose carry into days does not fit in 32 bits are part of the workload.",
+    "C07": " Calendar-unit until/since of dates and year-months with increments, and precision rounding of negative durations in toString, are judged too (exact-rational model).",
+    "C11": " ZonedDateTime in named zones is formatted with every precision and mode at instants around transitions; the text must be that of the rounded instant and parse back to what it denotes.",
+    "C13": " Real zones are additionally driven through the library's own file-system provider.",
+    "C14": " Real zones are additionally driven through the library's own file-system provider.",
+    "C15": " Identifier answers are re-checked after queries for non-IANA file names on the same provider.",
+    "C18": " Rounded since() and month-days from field records in leap and common years are judged.",
+    "C19": " Receivers cover the neighbourhood of every zone's transitions, including days whose midnight is skipped from before it.",
+}.items():
+    PROPS[_p]["manifest"]["text"] += _t
